@@ -377,6 +377,10 @@ for _id, _sc in _SCOPES.items():
     PROPERTIES[_id]["rules"].append((G.G21_row_position_dict, "%s tables of terms are not searched through a row -> position dict that merges equal rows" % _id, {"scope": _sc}))
     PROPERTIES[_id]["rules"].append((G.G23_parallel_accumulators, "%s lists filled in one loop and zipped later get the same number of entries on every path" % _id, {"scope": _sc}))
     PROPERTIES[_id]["rules"].append((G.G22_positional_order, "%s public functions keep the documented order of their positional parameters" % _id, {"scope": _sc}))
+    PROPERTIES[_id]["rules"].append((G.G24_second_order_induction, "%s no per-iteration value is accumulated with an index-weighted step (second-order induction variable)" % _id, {"scope": _sc}))
+    PROPERTIES[_id]["rules"].append((G.G25_vectorize_output_type, "%s np.vectorize of a function with mixed int / float results states its output type" % _id, {"scope": _sc}))
+    PROPERTIES[_id]["rules"].append((G.G26_any_of_indices, "%s emptiness of an index collection is not tested by the truth of its elements" % _id, {"scope": _sc}))
+    PROPERTIES[_id]["rules"].append((G.G27_unique_count_vs_size, "%s a count of distinct values is not compared with a size (repeated entries)" % _id, {"scope": _sc}))
     PROPERTIES[_id]["rules"].append((G.G12_set_order, "%s a sequence made from a set is not used as an ordered selector" % _id, {"scope": _sc}))
     PROPERTIES[_id]["rules"].append((G.G10_defined_before_use, "%s every read of a local is reached by an assignment (no statement moved above the one that defines its input)" % _id, {"scope": _sc}))
     PROPERTIES[_id]["rules"].append((G.G7_api_contract_pitfalls, "%s API contracts: insertion points as indices, span versus length, memoised functions / caching properties, stored tables tested by truth value" % _id, {"scope": _sc}))
@@ -404,7 +408,8 @@ _EXTRA = {
     "C05": [(C.C_fractional_wrap, "C05 triclinic wrap: fractional = positions . inverse(cell), back = fractional . cell (lattice vectors are rows)"),
             (C.C_idx_find, "C05 the index tuples, positions and rotations returned by the search stay parallel (a replacement is placed at the site whose atoms it removes)"),
             (C.C_wrap_modulus, "C05 inserted atoms are wrapped with period exactly 1 in fractional coordinates (inside the cell, by a lattice translation)"),
-            (C.C_roll_gate, "C05 the roll about the matched axis is applied to every match with more than two atoms")],
+            (C.C_roll_gate, "C05 the roll about the matched axis is applied to every match with more than two atoms"),
+            (A.A6_rotation_gate, "C05 the rotation handed to the replacement is the one whose rotated pattern was re-checked against the matched atoms (an unchecked rotation places the fragment arbitrarily)")],
     "C06": [(C.C_idx_replace, "C06.2 index tuples, positions and rotations of the matches stay parallel, so the terms of an inserted fragment are attached to the atoms of the same match"),
             (A2.A11_pop_deletes, "C06 the final deletion of the replaced atoms re-indexes the surviving terms with correctly normalised indices"),
             (A2.A10_descending_contract, "C06 terms of removed atoms are dropped and the others re-indexed under the callers' descending order")],
